@@ -1,6 +1,7 @@
 //! Runtime-monitoring harness for lzma-rust2 (properties C01-C19).
 #![allow(clippy::too_many_arguments, clippy::type_complexity)]
 
+pub mod alloc;
 pub mod bcj2enc;
 pub mod case;
 pub mod fio;
